@@ -9,16 +9,27 @@ open NLV.Bdb NLV.Generated.Spawned
 
 /-- Module tracing off, generated call order: a frame is accepted iff it is not a lambda and its module is the script's. -/
 theorem filters_sound_off (cx : FilterCtx) (fs : FilterState) (fr : FrameDesc) :
-    accepted filterOrderOff cx fs fr = true ↔ (fr.func ≠ "<lambda>" ∧ fr.module = some cx.script) := by
-  by_cases h1 : fr.func = "<lambda>" <;> by_cases h2 : fr.module = some cx.script <;>
-    simp [accepted, skipped, filterOrderOff, runFilter, filterImpl, h1, h2]
+    accepted filterOrderOff cx fs fr = true ↔ (cx.closed = false ∧ fr.func ≠ "<lambda>" ∧ fr.module = some cx.script) := by
+  by_cases h0 : cx.closed = true <;> by_cases h1 : fr.func = "<lambda>" <;> by_cases h2 : fr.module = some cx.script <;>
+    simp [accepted, skipped, filterOrderOff, runFilter, filterImpl, h0, h1, h2]
+
+/-- Once the plugin context has exited nothing is accepted any more, whatever the frame and whatever the other filters would say
+(F-G8: a thread that reaches script code for the first time after the run is over must not be traced) — both generated call orders. -/
+theorem closed_rejects_everything (traceModules : Bool) (cx : FilterCtx) (fs : FilterState) (fr : FrameDesc) (h : cx.closed = true) :
+    accepted (Bdb.filterOrder traceModules) cx fs fr = false := by
+  cases traceModules <;> simp [accepted, skipped, Bdb.filterOrder, filterOrderOff, filterOrderOn, runFilter, filterImpl, h]
+
+/-- … and the closed filter answers first: the state of `FilerByModule` is not touched by a rejected late frame. -/
+theorem closed_leaves_filter_state (traceModules : Bool) (cx : FilterCtx) (fs : FilterState) (fr : FrameDesc) (h : cx.closed = true) :
+    (runFilter (Bdb.filterOrder traceModules) cx fs fr).2 = fs := by
+  cases traceModules <;> simp [Bdb.filterOrder, filterOrderOff, filterOrderOn, runFilter, filterImpl, h]
 
 /-- Module tracing on, generated call order: an accepted frame is not a lambda and its module matches no pattern of the
 generated skip list — whatever the state of `FilerByModule`. -/
 theorem filters_sound_on (cx : FilterCtx) (fs : FilterState) (fr : FrameDesc) :
-    accepted filterOrderOn cx fs fr = true → (fr.func ≠ "<lambda>" ∧ matchAny fr.module modulesToSkip = false) := by
-  by_cases h1 : fr.func = "<lambda>" <;> by_cases h2 : matchAny fr.module modulesToSkip = true <;>
-    simp [accepted, skipped, filterOrderOn, runFilter, filterImpl, h1, h2]
+    accepted filterOrderOn cx fs fr = true → (cx.closed = false ∧ fr.func ≠ "<lambda>" ∧ matchAny fr.module modulesToSkip = false) := by
+  by_cases h0 : cx.closed = true <;> by_cases h1 : fr.func = "<lambda>" <;> by_cases h2 : matchAny fr.module modulesToSkip = true <;>
+    simp [accepted, skipped, filterOrderOn, runFilter, filterImpl, h0, h1, h2]
 
 /-- `FilerByModule` never answers `False`: it passes (`None`) or rejects (`True`) -/
 theorem filerByModule_ne_false (cx : FilterCtx) (fs : FilterState) (fr : FrameDesc) :
@@ -33,8 +44,8 @@ before, or the frame's module is one of the modules to trace (after the first-mo
 theorem filters_on_filer (cx : FilterCtx) (fs : FilterState) (fr : FrameDesc)
     (h : accepted filterOrderOn cx fs fr = true) : (filerByModule cx fs fr).1 = none := by
   have hne := filerByModule_ne_false cx fs fr
-  by_cases h1 : fr.func = "<lambda>" <;> by_cases h2 : matchAny fr.module modulesToSkip = true <;>
-    simp [accepted, skipped, filterOrderOn, runFilter, filterImpl, h1, h2] at h
+  by_cases h0 : cx.closed = true <;> by_cases h1 : fr.func = "<lambda>" <;> by_cases h2 : matchAny fr.module modulesToSkip = true <;>
+    simp [accepted, skipped, filterOrderOn, runFilter, filterImpl, h0, h1, h2] at h
   generalize hr : filerByModule cx fs fr = r at h hne
   rcases r with ⟨_ | b, fs'⟩
   · rfl
